@@ -9,6 +9,7 @@ mod pr;
 mod rg;
 mod fleet;
 mod fm;
+mod px;
 mod wire;
 mod bv;
 mod rt;
@@ -38,6 +39,7 @@ fn main() {
         "fleet-scripts" => fleet::scripts(&a),
         "fleet-broadcast" => fleet::broadcast(&a),
         "fleet-members" => fm::replay(&a),
+        "proxy-replay" => px::replay(&a),
         "wire-exec" => wire::exec(&a),
         "wire-child" => wire::child(&a),
         "wire-c01" => wire::c01(&a),
